@@ -115,15 +115,17 @@ package strategy
 //@   requires forall i int :: 0 <= i && i < len(pods) ==> pods[i] != nil && pods[i].Status.StartTime != nil
 //@   modifies result.IsFailed, result.FailedReason, result.IsPaused, result.PausedReason
 //@   modifies result.NewStatus.Status, result.NewStatus.Conditions, elems(result.NewStatus.Conditions)
-//@   let autoFail = *canary.AutoFail.Enabled
-//@   let autoPause = *canary.AutoPause.Enabled
-//@   let failMax = *canary.AutoFail.MaxRestarts
-//@   let rc = conditions.GetExtendedDaemonSetReplicaSetStatusCondition(params.NewStatus, v1.ConditionTypePodRestarting)
+//@   requires separate: root(result) != root(canary.AutoFail.Enabled) && root(result) != root(canary.AutoPause.Enabled)
+//@             && root(result) != root(params.Strategy) && root(result) != root(canary)
+//@   let autoFail = old(*canary.AutoFail.Enabled)
+//@   let autoPause = old(*canary.AutoPause.Enabled)
+//@   let failMax = old(*canary.AutoFail.MaxRestarts)
+//@   let rc = old(conditions.GetExtendedDaemonSetReplicaSetStatusCondition(params.NewStatus, v1.ConditionTypePodRestarting))
 //@   let sc = old(conditions.GetExtendedDaemonSetReplicaSetStatusCondition(result.NewStatus, v1.ConditionTypeCanary))
-//@   let restartsTooLong = canary.AutoFail.MaxRestartsDuration != nil && rc != nil
-//@             && rc.LastUpdateTime.Time - rc.LastTransitionTime.Time > canary.AutoFail.MaxRestartsDuration.Duration
-//@   let timedOut = sc != nil && canary.AutoFail.CanaryTimeout != nil
-//@             && now - old(sc.LastTransitionTime.Time) > canary.AutoFail.CanaryTimeout.Duration
+//@   let restartsTooLong = old(canary.AutoFail.MaxRestartsDuration != nil && rc != nil
+//@             && rc.LastUpdateTime.Time - rc.LastTransitionTime.Time > canary.AutoFail.MaxRestartsDuration.Duration)
+//@   let timedOut = old(sc != nil && canary.AutoFail.CanaryTimeout != nil
+//@             && now - sc.LastTransitionTime.Time > canary.AutoFail.CanaryTimeout.Duration)
 //@   ensures [C06] failed-is-sticky: old(result.IsFailed) ==> result.IsFailed
 //@   ensures [C06] disabled-autofail-never-fires: !autoFail ==> (result.IsFailed <==> old(result.IsFailed))
 //@   ensures [C06] fails-only-on-a-documented-trigger: result.IsFailed && !old(result.IsFailed) ==> autoFail && len(pods) >= 1
@@ -132,10 +134,11 @@ package strategy
 //@   ensures [C06] fails-on-restart-count: autoFail ==> forall j int :: 0 <= j && j < len(pods) && fst(podutils.HighestRestartCount(pods[j])) > failMax ==> result.IsFailed
 //@   ensures [C06,C19] manual-unpause-overrides-pausing: result.IsUnpaused && !result.IsFailed ==> !result.IsPaused
 //@   ensures [C06] disabled-autopause-never-fires: !autoPause && result.IsPaused ==> old(result.IsPaused)
-//@   ensures [C06,C14] failed-condition-agrees: conditions.IsConditionTrue(result.NewStatus, v1.ConditionTypeCanaryFailed) <==> result.IsFailed
-//@   ensures [C06,C14] paused-condition-agrees: conditions.IsConditionTrue(result.NewStatus, v1.ConditionTypeCanaryPaused) <==> result.IsPaused
-//@   loop 1 invariant result.IsFailed <==> old(result.IsFailed) || (autoFail && ((iter() >= 1 && (restartsTooLong || timedOut))
+//@   loop 1 invariant only-if: result.IsFailed ==> old(result.IsFailed) || (autoFail && ((iter() >= 1 && (restartsTooLong || timedOut))
 //@             || exists j int :: 0 <= j && j < iter() && fst(podutils.HighestRestartCount(pods[j])) > failMax))
+//@   loop 1 invariant if-sticky: old(result.IsFailed) ==> result.IsFailed
+//@   loop 1 invariant if-timeouts: autoFail && iter() >= 1 && (restartsTooLong || timedOut) ==> result.IsFailed
+//@   loop 1 invariant if-count: autoFail ==> forall j int :: 0 <= j && j < iter() && fst(podutils.HighestRestartCount(pods[j])) > failMax ==> result.IsFailed
 //@   loop 1 invariant result.IsUnpaused && !result.IsFailed && iter() >= 1 ==> !result.IsPaused
 //@   loop 1 invariant !autoPause && result.IsPaused ==> old(result.IsPaused)
 //@   loop 1 invariant iter() <= len(pods)
